@@ -52,7 +52,7 @@ type C05Case struct {
 
 func init() {
 	register("C05",
-		"cells of two finite products. A: {15 assignment, 8 comparison operators} x left kind {local INTEGER FLOAT STRING BOOL RTIME TIME IP BACKEND, header, predefined variable of each type} x right type x right form {literal, local, predefined variable}, in vcl_recv. B: every entry of __generator__/predefined.yml x {get,set,unset}, every signature of __generator__/builtin.yml (+ one wrong-arity, one wrong-type call per function), restart/error/esi/synthetic/synthetic.base64/return(action), each x {nine lifecycle subroutines, 36 two-scope `// @scope: a, b` annotations of a user sub}. Each cell is a one-use program; T = verdict of the harness's own tables (YAML read with yaml.v3; operator/statement tables transcribed as data from the Fastly documentation quoted in falco's comments; T(a,b) = T(a) and T(b)), L = no ERROR diagnostic on the probe line, S = ProcessTestSubroutine in each scope ends without an error of class type/undefined/out-of-scope/arity/argument-type/not-implemented/panic. Oracle: L == T (skipped where T is unspecified) and L => S. non-trivial: T is deny or unspecified, or a two-scope cell, or set/unset, or an operator other than = and ==; distinct by cell",
+		"cells of two finite products. A: {15 assignment, 8 comparison operators} x left kind {local INTEGER FLOAT STRING BOOL RTIME TIME IP BACKEND, header, predefined variable of each type} x right type x right form {literal, local, predefined variable}, in vcl_recv. B: every entry of __generator__/predefined.yml x {get,set,unset}, every signature of __generator__/builtin.yml (+ one wrong-arity, one wrong-type call per function), restart/error/esi/synthetic/synthetic.base64/return(action), each x {nine lifecycle subroutines, 36 two-scope `// @scope: a, b` annotations of a user sub}. Each cell is a one-use program; T = verdict of the harness's own tables (YAML read with yaml.v3; operator/statement tables transcribed as data from the Fastly documentation quoted in falco's comments; T(a,b) = T(a) and T(b)), L = no ERROR diagnostic on the probe line, S = ProcessTestSubroutine in each scope ends without an error of class type/undefined/out-of-scope/arity/argument-type/not-implemented/panic (for return(action) also: the lifecycle dispatch of that scope knows the state). Oracle: L == T (skipped where T is unspecified) and L => S. non-trivial: T is deny or unspecified, or a two-scope cell, or set/unset, or an operator other than = and ==; distinct by cell",
 		genC05, checkC05, 20*time.Second)
 	enums["C05"] = enumC05
 }
